@@ -448,5 +448,57 @@ class NearPlaintexts(Part):
         return res
 
 
+class LongLines(Part):
+    name = "same_secret_on_short_and_long_lines"
+    desc = "one secret on a short line, then straddling column 2^k (k = 8..16) of a long line at every split position (4096, 8192; three positions elsewhere), then on a short line again: one replacement throughout; a second secret gets another"
+
+    def __init__(self, tier, seed):
+        self.tier, self.seed = tier, seed
+
+    def cases(self):
+        return [{"P": 1 << k, "cls": c} for k in range(8, 17) for c in ("text", "juniper9")]
+
+    def run(self, case):
+        from netconan.anonymize_files import FileAnonymizer
+
+        res = Res()
+        P = case["P"]
+        S, S2 = (("rS3cretValue", "0therS3cret") if case["cls"] == "text"
+                 else (refs.j9_encode("hunter2", "Q"), refs.j9_encode("S3cr3tQ", "k")))
+        stmt = "password %s"
+        n = len(stmt % S)
+        shifts = range(1, n) if P in (4096, 8192) or self.tier == "thorough" else (2, n // 2, n - 2)
+        for sh in shifts:
+            if "sh" in case and case["sh"] != sh:
+                continue
+            pad = '{"k":"' + "x" * max(1, P - sh - 7) + " "
+            lines = [stmt % S, pad + stmt % S + " end", "enable " + stmt % S, stmt % S2]
+            with seams.capture_logs():
+                fa = FileAnonymizer(anon_pwd=True, anon_ip=False, salt="saltForTest")
+                out = io.StringIO()
+                fa.anonymize_io(io.StringIO("".join(l + "\n" for l in lines)), out)
+            got = out.getvalue().split("\n")[:-1]
+            res.evals += 1
+            res.states += 1
+            res.transitions += len(lines)
+            res.nt((P, case["cls"], sh))
+            if len(got) != len(lines):
+                res.violation("line-count|long-line", "%d lines in, %d out (statement %d characters before column %d)" % (
+                    len(lines), len(got), sh, P), dict(case, sh=sh))
+                continue
+            reps = [got[0].split()[-1], got[1].split()[-2], got[2].split()[-1], got[3].split()[-1]]
+            c = [canon_repl(r) for r in reps]
+            res.out((c[0] == c[1] == c[2], c[3] != c[0]))
+            if not (c[0] == c[1] == c[2]):
+                res.violation("equal-secrets-different-replacements|long-line|column=%d" % P,
+                              "secret %r: short line %r, %d characters before column %d of a long line %r, short line again %r" % (
+                                  S, reps[0], sh, P, reps[1][-40:], reps[2]), dict(case, sh=sh))
+            elif c[3] == c[0]:
+                res.violation("different-secrets-same-replacement|long-line", "%r and %r both %r" % (S, S2, reps[0]), dict(case, sh=sh))
+        if "sh" not in case:
+            res.samples.append({"column": P, "class": case["cls"]})
+        return res
+
+
 def parts(tier, seed):
-    return [HistoryPart(tier, seed), SaltChars(tier, seed), LongHistory(tier, seed), NearPlaintexts(tier, seed)]
+    return [HistoryPart(tier, seed), SaltChars(tier, seed), LongHistory(tier, seed), NearPlaintexts(tier, seed), LongLines(tier, seed)]
